@@ -6,6 +6,7 @@ CONSTANTS
   Tags = {0, 1}
   Es = 8
   MaxPa = 0
+  TRem = {}
   OpNames = {"insert", "remove", "replace", "get_or_insert", "take", "xor_assign", "or_assign", "and_assign", "sub_assign", "shrink_to_fit"}
 INVARIANTS Inv Refines ChkOK
 CHECK_DEADLOCK FALSE
